@@ -114,6 +114,14 @@ func c13Run(c *mon.Ctx, unit int) {
 			s = gen.Everything(r, gen.EverythingOpts{MaxDepth: r.Range(1, 4), MaxWidth: 4}).S
 		}
 		s.OptKeys = r.Chance(1, 8)
+		if k%4 == 1 {
+			// false-valued rules, several on one node: inert whatever their order
+			s.Root.Walk(func(n *model.Node) {
+				if n.IsScalar() && n.Rule("or") == nil && n.Rule("enum") == nil && r.Chance(1, 2) {
+					gen.AddFalseRules(r, n)
+				}
+			})
+		}
 		canon := specOf(s, model.Style{})
 		base := buildSchema(canon)
 		if base.check.Panic != "" {
